@@ -70,6 +70,89 @@ def impl_parse(req):
     raise ValueError(which)
 
 
+CLI_PN = "x16x16x16,12"
+CLI_OPTS = {"peal_speed": ["--peal-speed", "-S"], "call": ["--bob", "-b"], "start_row": ["--start-row"],
+            "place_notation": ["--place-notation", "-p"], "comp_arg": ["--comp", "-c"]}
+
+
+def gen_rows(g, n=36):
+    """What a generator rings over `n` rows with a Bob called in row 2 and a Single half way."""
+    from wheatley.stroke import Stroke
+    out = [[b.number for b in g.start_row]]
+    for i in range(n):
+        if i == 2 or i == n // 2 + 3:
+            g.set_bob()
+        if i == n // 2:
+            g.set_single()
+        try:
+            row, calls = g.next_row_and_calls(Stroke.from_index(i))
+        except Exception as e:  # noqa
+            out.append(type(e).__name__)
+            break
+        out.append([[b.number for b in row], list(calls)])
+    return out
+
+
+def impl_cli(req):
+    """The value given on the command line of the real `main(argv)` (nothing is connected, the run stops where
+    the Bot would be constructed), next to the value given to the option's own parse function."""
+    import random
+    from harness import climain
+    which, s = req["which"], req["s"]
+    base = impl_parse(req)
+    res = base["res"] if "res" in base else base
+    own_msg = None
+    if "own" in res:
+        try:
+            {"peal_speed": parsing.parse_peal_speed, "call": parsing.parse_call, "start_row": parsing.parse_start_row,
+             "place_notation": parsing.parse_place_notation, "comp_arg": ccg.parse_arg}[which](s)
+        except OWN[which] as e:
+            own_msg = str(e)
+    rng = random.Random(f"{which}:{s}")
+    opts = CLI_OPTS[which]
+    short = not s.startswith("-") and s != "" and rng.random() < 0.5
+    given = [rng.choice(opts), s] if short else [opts[0] + "=" + s]
+    argv = ["763451928", "--url", "http://fake-rr"]
+    if which == "call":
+        given = given + ["--single=" + s]
+    if which not in ("place_notation", "comp_arg"):
+        argv += ["-p", "6:" + CLI_PN]
+    argv = argv + given if rng.random() < 0.5 else argv[:1] + given + argv[1:]
+    comp_text = implrun.comp_payload({"rows": [["123456", "", ""], ["123456", "", ""], ["214365", "", ""]], "stage": 6})
+    r = climain.run(argv, comp_text=comp_text)
+    cli = {"outcome": r["outcome"], "argv": argv}
+    if r["outcome"] == "exit":
+        code = r["code"]
+        cli["code"] = code if isinstance(code, (int, type(None))) else str(code)
+        cli["own_message"] = bool(own_msg is not None and isinstance(code, str) and own_msg in code)
+    elif r["outcome"] == "raise":
+        cli["exc"] = type(r["exc"]).__name__
+        cli["own_class"] = isinstance(r["exc"], OWN[which])
+    elif r["outcome"] == "built" and "ok" in res:
+        try:
+            if which == "peal_speed":
+                got = list((r["rhythm_args"] or {}).values())[0]
+                cli["agrees"] = got == res["ok"]
+                cli["got"] = got
+            elif which == "call":
+                cd = CallDef({int(k): v for k, v in res["ok"]})
+                want = gen_rows(PlaceNotationGenerator(6, CLI_PN, cd, cd))
+                cli["agrees"] = gen_rows(r["gen"]) == want
+            elif which == "start_row":
+                want = gen_rows(PlaceNotationGenerator(6, CLI_PN, start_row=s))
+                cli["agrees"] = gen_rows(r["gen"]) == want
+            elif which == "place_notation":
+                want = gen_rows(PlaceNotationGenerator(res["ok"][0], res["ok"][1]))
+                cli["agrees"] = gen_rows(r["gen"]) == want
+            else:
+                cli["agrees"] = True
+        except Exception as e:  # noqa  (the value cannot be rung at all: the parse-level oracle reports that)
+            cli["agrees"] = None
+            cli["note"] = type(e).__name__
+    base["cli"] = cli
+    return base
+
+
 def comp_url(arg):
     url = arg if "complib.org" in arg else "https://complib.org/composition/" + arg
     if not url.startswith("http"):
@@ -115,6 +198,18 @@ class C18(Prop):
         for i in range(n):
             which = rng.choice(list(ALPHA))
             yield self.mk(which, self.rand_string(rng, which))
+        # the same values given on the command line of the real main(argv)
+        for which, alpha in ALPHA.items():
+            for n in range(0, 3 if tier == "quick" and which != "comp_arg" else 3):
+                for t in itertools.product(alpha, repeat=n):
+                    # (argparse itself drops a value that is exactly "--": not a value one can give)
+                    if (n < 2 or tier != "quick" or rng.random() < 0.4) and "".join(t) != "--":
+                        yield dict(self.mk(which, "".join(t)), cli=True)
+        for i in range(500 if tier == "quick" else 5000):
+            which = rng.choice(list(ALPHA))
+            s = self.rand_string(rng, which)
+            if s != "--":
+                yield dict(self.mk(which, s), cli=True)
 
     def mk(self, which, s):
         req = {"k": "parse", "which": which, "s": s}
@@ -169,10 +264,20 @@ class C18(Prop):
         return base + q
 
     def impl(self, req):
-        return impl_parse(req)
+        return impl_cli(req) if req.get("cli") else impl_parse(req)
+
+    def to_model(self, req):
+        return {k: v for k, v in req.items() if k != "cli"}
+
+    def compare(self, req, ir, mr):
+        if isinstance(ir, dict) and "cli" in ir:
+            ir = {k: v for k, v in ir.items() if k != "cli"}
+        return super().compare(req, ir, mr)
 
     def tag(self, req, reply):
         res = reply["res"] if "res" in reply else reply
+        if "cli" in reply:
+            return f"cli:{req['which']}:{list(res)[0]}:{reply['cli']['outcome']}"
         return f"{req['which']}:len{min(len(req['s']), 9)}:{list(res)[0]}"
 
     def nontrivial(self, req, reply):
@@ -181,6 +286,24 @@ class C18(Prop):
 
     def oracle(self, req, reply):
         res = reply["res"] if "res" in reply else reply
+        cli = reply.get("cli")
+        if cli is not None and "crash" not in res:
+            how = " ".join(cli["argv"][1:])
+            if "own" in res:
+                ok = cli["outcome"] == "exit" and cli.get("own_message") or cli["outcome"] == "raise" and cli.get("own_class")
+                if not ok:
+                    what = f"SystemExit({cli.get('code')!r})" if cli["outcome"] == "exit" else \
+                        cli.get("exc", cli["outcome"])
+                    return (f"main({how!r}): the value is refused by {req['which']}'s rules ({res['own']}) but the "
+                            f"command line answers with {what}, not with that option's own error")
+            elif "ok" in res:
+                if cli["outcome"] != "built":
+                    what = f"SystemExit({cli.get('code')!r})" if cli["outcome"] == "exit" else cli.get("exc", cli["outcome"])
+                    if not (req["which"] == "place_notation" and reply.get("rung") is not True):
+                        return f"main({how!r}): the value is valid but the command line answers with {what}"
+                elif cli.get("agrees") is False:
+                    return (f"main({how!r}): the value given on the command line is not the value the syntax defines"
+                            + (f" (got {cli['got']!r}, the syntax says {res['ok']!r})" if "got" in cli else ""))
         if "crash" in res:
             return f"{req['which']}({req['s']!r}) raised {res['crash']} instead of its own error"
         if req["which"] == "place_notation" and "ok" in res and reply["rung"] is not True:
